@@ -105,6 +105,8 @@ class ExprMixin:
         r = self.new_ref(st, cls)
         if lit.kind == 'list':
             if cls.kind == 'record' and cls.ncells is not None:
+                if not lit.items:
+                    return r            # `x = []` later filled by x[:] = [...]: an uninitialised cell
                 if len(lit.items) != cls.ncells:
                     raise Unsupported('cell literal of length %d for %s' % (len(lit.items), cls.name))
                 for i, it in enumerate(lit.items):
